@@ -375,9 +375,10 @@ pub fn run(args: &Args) -> i32 {
         "case = (chunking+delays of both sources, acceptance quotas+writability delays of both sinks, idle timer, \
          at most one injected fault: read/consume/write/wait_writable/eof/flush error at a chosen call) drawn from a seeded \
          generator (small scope: streams <= 6 bytes, quotas {0,1,2,inf}, delays {0,1,2} ticks, timer {never, 3 ticks}; large: \
-         up to 256 KiB). distinct_nontrivial = distinct case descriptors with at least one byte to move or a fault to hit.",
+         up to 256 KiB). distinct_nontrivial = distinct case descriptors with at least one byte to move or a fault to hit. \
+         L2 (coverage.l2): position-coded streams through real HTTP/1.1 and HTTP/2 tunnels over TLS on loopback.",
     ));
-    rep.assume("mirror endpoints implement the pipe::Source/Sink contract (flush after eof succeeds); real codec sinks are exercised end to end by other checks");
+    rep.assume("L1: mirror endpoints implement the pipe::Source/Sink contract (flush after eof succeeds); L2: real codec sinks end to end on loopback, stall = 30 s without a byte of progress in either direction (inconclusive if scheduler lag exceeded 2 s); HTTP/3 not exercised");
     rep.assume("virtual time (tokio paused clock); stall = no completion within 200000 virtual seconds");
     if let Some(p) = &args.replay {
         let v: Value = serde_json::from_str(&std::fs::read_to_string(p).unwrap_or_default()).unwrap_or_default();
@@ -454,5 +455,6 @@ pub fn run(args: &Args) -> i32 {
     }
     rep.set("distinct_case_classes", json!(classes_all.len()));
     rep.tally("distinct (chunking x back-pressure x fault x timer) classes", classes_all.len() as u64);
+    crate::props::c02_l2::run_l2(&rep, args);
     rep.finish()
 }
